@@ -135,6 +135,11 @@ harnesses! {
     fn c19_q_trim_dna_all_bad [10] { trim_concrete!(Dna, oracle::DNA, b"nx7 ", 4) }
     fn c19_t_trim_iupac_lower_flanks [10] { trim_concrete!(Iupac, oracle::IUPAC, b"nnAC-Nn", 7) }
     fn c19_t_trim_text_padded [12] { trim_concrete!(text::Dna, oracle::TEXT, b"xxANGx", 6) }
+    // bytes that are not UTF-8 are ordinary unacceptable bytes: trimmed at the ends, errors in the interior
+    fn c19_q_trim_dna_non_utf8_prefix [10] { trim_concrete!(Dna, oracle::DNA, b"\xff\xfeAC", 4) }
+    fn c19_q_trim_dna_non_utf8_suffix [10] { trim_concrete!(Dna, oracle::DNA, b"GT\x80", 3) }
+    fn c19_q_trim_dna_non_utf8_all_bad [10] { trim_concrete!(Dna, oracle::DNA, b"\xff\xc0", 2) }
+    fn c19_q_trim_dna_non_utf8_interior [10] { trim_concrete!(Dna, oracle::DNA, b"A\xc3G", 3) }
     fn c19_q_trim_dna_two_interior_bad [10] { trim_concrete!(Dna, oracle::DNA, b"AxNG", 4) }
     fn c19_q_to_text_o30_n9 [12] { convert!(text::Dna, 30, 9, dna_to_text) }
     fn c19_t_to_iupac_o30_n17 [20] { convert!(Iupac, 30, 17, oracle::dna_to_iupac) }
